@@ -1,7 +1,7 @@
 (* Entry points evaluated by the extracted driver: one harness case -> one report line. *)
 From Coq Require Import Ascii String.
 From Coq Require Import List NArith ZArith QArith Bool Arith.
-From V Require Import Str Num Tok Tables Items Read Decode WellFormed Doc Case Paginate Pipeline Document Checks.
+From V Require Import Str Num Tok Tables Items Read Decode Bytes WellFormed Doc Case Paginate Pipeline Document Checks.
 Import ListNotations.
 Local Open Scope string_scope.
 Local Open Scope list_scope.
@@ -157,6 +157,35 @@ Definition run_c13 (id : str) (d : doc) (impl : sexp) : str :=
        kv "npages" (nat_str (length (observed_pages pd)))])
   end.
 
+(* C10: impl = bytes of the file written by write_rtf; extra = the strings that must be read back *)
+Definition run_c10 (id : str) (d : doc) (impl : sexp) (extra : sexp) : str :=
+  match impl with
+  | SList [SNum [49%N]; SStr bytes] =>
+    let chars := chars_of_bytes bytes in
+    let ts := lex chars in
+    let seven_bit := all_b (fun b => N.ltb b 128) bytes in
+    match read_doc ts, dList dStr extra with
+    | Some pd, Some expected =>
+      let miss := first_missing expected (all_texts pd) 0 in
+      let c2 := check_c02 d pd in
+      let uok := unicode_ok 1 ts in
+      let cl := (if negb uok then 3 else match miss with Some _ => 1 | None => if Nat.eqb c2 0 then 0 else 2 end)%nat in
+      line [kv "id" id; kv "tie" (s2l "0");
+            kv "holds" (bool_str (Nat.eqb cl 0)); kv "clause" (nat_str cl);
+            kv "missing" (match miss with Some k => nat_str k | None => s2l "-" end);
+            kv "sevenbit" (bool_str seven_bit);
+            kv "agree" (bool_str (match encode d with Ok mt => tok_list_eqb mt ts | Err _ => false end));
+            kv "ntexts" (nat_str (length (all_texts pd)))]
+    | None, _ => line [kv "id" id; kv "tie" (s2l "0"); kv "holds" (s2l "0"); kv "clause" (s2l "4");
+                       kv "agree" (s2l "0"); kv "unparsed" (s2l "1")]
+    | _, None => line [kv "id" id; kv "bad" (s2l "extra")]
+    end
+  | SList [SNum [48%N]; SStr cls] =>
+    line [kv "id" id; kv "tie" (s2l "0"); kv "holds" (s2l "0"); kv "clause" (s2l "9"); kv "agree" (s2l "0");
+          kv "refused" (safe cls)]
+  | _ => line [kv "id" id; kv "bad" (s2l "impl")]
+  end.
+
 Definition run_case (e : sexp) : str :=
   match e with
   | SList [SStr mode; SStr id; de; impl] =>
@@ -203,6 +232,12 @@ Definition run_dbg (id : str) (d : doc) : str :=
 
 Definition run_case' (e : sexp) : str :=
   match e with
+  | SList [SStr mode; SStr id; de; impl; extra] =>
+    match dDoc de with
+    | Some d => if str_eqb mode (s2l "c10") then run_c10 id d impl extra
+                else line [kv "id" id; kv "bad" (s2l "mode5")]
+    | None => line [kv "id" id; kv "bad" (s2l "decode")]
+    end
   | SList (SStr mode :: SStr id :: de :: _) =>
     if str_eqb mode (s2l "dbg") then
       match dDoc de with Some d => run_dbg id d | None => line [kv "id" id; kv "bad" (s2l "decode")] end
